@@ -93,7 +93,10 @@ def c16_inputs(ctx, job):
     """Yields (tid, files, main) for a C16 job descriptor."""
     pi = ctx.pi
     fam, seed = job["fam"], job["seed"]
-    if fam in ("bytes", "soup", "gram", "nest", "imports", "sent", "valid"):
+    if fam == "texts":
+        for item in job["items"]:
+            yield item["tid"], {"m.emb": item["text"]}, "m.emb"
+    elif fam in ("bytes", "soup", "gram", "nest", "imports", "valid"):
         for idx in range(job["start"], job["start"] + job["count"]):
             r = pi.rng_for(seed, fam, idx)
             tid = "%s:%d" % (fam, idx)
@@ -108,11 +111,6 @@ def c16_inputs(ctx, job):
             elif fam == "imports":
                 files, main = pi.gen_import_set(r)
                 yield tid, files, main
-            elif fam == "sent":
-                t = pi.gen_sentence(r, seed, idx)
-                if t is None:
-                    return
-                yield tid, {"m.emb": t}, "m.emb"
             else:
                 imps = [n for n in ("a", "b") if r.random() < 0.3]
                 files = {"m.emb": pi.gen_program(r, imps)}
@@ -150,7 +148,7 @@ def regenerate_input(tid, seed):
     ctx = Ctx(os.devnull)
     parts = tid.split(":")
     fam = parts[0]
-    if fam in ("bytes", "soup", "gram", "nest", "imports", "sent", "valid"):
+    if fam in ("bytes", "soup", "gram", "nest", "imports", "valid"):
         job = {"fam": fam, "seed": seed, "start": int(parts[1]), "count": 1}
     elif fam == "corpus":
         job = {"fam": fam, "seed": seed, "names": [":".join(parts[1:])]}
@@ -248,6 +246,11 @@ def run_schedule(ctx, job):
         plan.append((p, incarnation.get(p, 0), st))
     # children are long-lived: one per (p, incarnation); driven over pipes, strictly sequentially
     children = {}
+    order = []
+
+    def child_path(keyp):
+        return "%s.%s.%s-%d.child" % (ctx.out_path, job["tid"], keyp[0], keyp[1])
+
     try:
         for p, inc, st in plan:
             keyp = (p, inc)
@@ -265,7 +268,9 @@ def run_schedule(ctx, job):
                                 os.close(_fr.fileno())
                             except OSError:
                                 pass
-                        ctx.out = open(ctx.out_path, "a", encoding="utf-8")
+                        # every process incarnation is its own event stream (appended to the
+                        # worker's stream, whole, when the schedule is over)
+                        ctx.out = open(child_path(keyp), "w", encoding="utf-8")
                         fin = os.fdopen(r1, "r")
                         fout = os.fdopen(w2, "w")
                         ctx.write([{"ev": "Start", "seed": ctx.seedenv, "proc": "%s/%s#%d" % (job["tid"], p, inc)}])
@@ -281,6 +286,7 @@ def run_schedule(ctx, job):
                 os.close(r1)
                 os.close(w2)
                 children[keyp] = (pid, os.fdopen(w1, "w"), os.fdopen(r2, "r"))
+                order.append(keyp)
             pid, fw, fr = children[keyp]
             fw.write(json.dumps(st["job"]) + "\n")
             fw.flush()
@@ -296,6 +302,13 @@ def run_schedule(ctx, job):
         for pid, fw, fr in children.values():
             os.waitpid(pid, 0)
             fr.close()
+        for keyp in order:
+            cp = child_path(keyp)
+            if os.path.exists(cp):
+                with open(cp, encoding="utf-8") as f:
+                    ctx.out.write(f.read())
+                os.unlink(cp)
+        ctx.out.flush()
 
 
 def run_ir_job(ctx, job):
